@@ -183,7 +183,7 @@ def main(argv=None):
         if a.tier == "quick":
             # the guard only bites on an overloaded machine (an idle quick run takes 5-40 s); keep it
             # generous so that coverage does not depend on the load of the host
-            budget = max(budget, float(os.environ.get("VERIF_QUICK_GUARD", "120")))
+            budget = max(budget, float(os.environ.get("VERIF_QUICK_GUARD", "75")))
     try:
         tasks = list(mod.plan(a.tier, seed))
     except Exception:  # noqa: BLE001
